@@ -292,7 +292,7 @@ class StubsStringGenerator:
 
                 if not is_internal_superclass:
                     self._add_to_imports(superclass)
-                    superclass_names.append(superclass_name)
+                    superclass_names.append(_replace_if_safeds_keyword(superclass_name))
                 else:
                     # For internal superclasses, we have to add their public members to subclasses.
                     superclass_methods_text += self._create_internal_class_string(
@@ -716,7 +716,7 @@ class StubsStringGenerator:
                     if name[0] == "_" and type_data["qname"] not in self.module_imports:
                         self._current_todo_msgs.add("internal class as type")
 
-                    return name
+                    return _replace_if_safeds_keyword(name)
         elif kind == "FinalType":
             return self._create_type_string(type_data["type"])
         elif kind == "CallableType":
@@ -759,8 +759,8 @@ class StubsStringGenerator:
             if types:
                 if len(types) >= 2 and name in {"Set", "List"}:
                     self._current_todo_msgs.add(name)
-                return f"{name}<{', '.join(types)}>"
-            return f"{name}<Any>"
+                return f"{_replace_if_safeds_keyword(name)}<{', '.join(types)}>"
+            return f"{_replace_if_safeds_keyword(name)}<Any>"
         elif kind == "UnknownType":  # pragma: no cover
             self._current_todo_msgs.add("unknown")
             return "unknown"
